@@ -8,8 +8,8 @@ EXPLANATION = ('C04: Field.shift algebra on symbolic tilt elements (angular and 
                'split into a concrete whole-sample part and a symbolic sub-sample part; fit_tilt with the real pinv on concrete design matrices and symbolic OPD.')
 BOUNDS = {
     'quick': 'shift algebra: <= 3 elements, all orders, symbolic angles/z/lambda/du/oversample; representations: pupil 2x2 (and 2x3), output <= 3x3, oversample 1..2, '
-             'whole-sample displacement in -(S+1)..S+1 per axis (sampled 140), sub-sample part symbolic in [0,1); fit_tilt: masks on <= 3x4 arrays, 1..2 segments, 2 pixel scales',
-    'thorough': 'representations: pupils up to 3x3, 600 sampled displacements; fit_tilt: 1..3 segments',
+             'whole-sample displacement in -(S+1)..S+1 per axis (sampled 400), sub-sample part symbolic in [0,1); fit_tilt: masks on <= 3x4 arrays, 1..2 segments, 2 pixel scales',
+    'thorough': 'representations: pupils up to 3x3, 900 sampled displacements; fit_tilt: 1..3 segments',
 }
 ASSUMPTIONS = ['dispersive elements of order 1 symbolically; a second-order trace (scipy.optimize.leastsq / integrate.quad, not modelled) only through a concrete-only obligation evaluated at the sampled points of every run',
                'displacement = k + s with k an enumerated integer and s symbolic: s in [eps, 1-eps] for k > 0, [-1+eps, -eps] for k < 0, [-1+eps, 1-eps] for k = 0, eps = 2^-20 (displacements within eps of a discontinuity of fix() are excluded: floating point may land on either side); every other real displacement |shift| < S+2 is covered',
@@ -125,7 +125,7 @@ def run_shift(W, cfg):
 # ------------------------------------------------------------------ representations
 def cfg_repr(tier, seed):
     rng = random.Random(404 + seed)
-    want = 140 if tier == 'quick' else 600
+    want = 400 if tier == 'quick' else 900
     out = []
     pupils = [(2, 2), (2, 3), (1, 2)] if tier == 'quick' else [(2, 2), (2, 3), (3, 2), (3, 3), (1, 2)]
     for _ in range(want):
